@@ -1348,13 +1348,25 @@ def i_SMSW(i, fmap):
     fmap[dst] = top(16)
 
 
+# result of a bit scan/count: a constant if the source is one, unknown
+# otherwise (there is no cas operator for these); f gives None if undefined.
+def _bitcount(f, x, size):
+    if x._is_cst:
+        n = f(x.v)
+        if n is not None:
+            return cst(n, size)
+    return top(size)
+
+
 def i_BSF(i, fmap):
     logger.verbose("%s semantic is not defined" % i.mnemonic)
     fmap[eip] = fmap[eip] + i.length
     dst, src = i.operands
     x = fmap(src)
     fmap[zf] = x == 0
-    fmap[dst] = top(dst.size)
+    # index of the lowest set bit (undefined if there is none)
+    r = _bitcount(lambda v: (v & -v).bit_length() - 1 if v else None, x, dst.size)
+    fmap[dst] = r
 
 
 def i_BSR(i, fmap):
@@ -1363,14 +1375,17 @@ def i_BSR(i, fmap):
     dst, src = i.operands
     x = fmap(src)
     fmap[zf] = x == 0
-    fmap[dst] = top(dst.size)
+    # index of the highest set bit (undefined if there is none)
+    r = _bitcount(lambda v: v.bit_length() - 1 if v else None, x, dst.size)
+    fmap[dst] = r
 
 
 def i_POPCNT(i, fmap):
     logger.verbose("%s semantic is not defined" % i.mnemonic)
     dst, src = i.operands
     x = fmap(src)
-    fmap[dst] = top(dst.size)
+    r = _bitcount(lambda v: bin(v).count("1"), x, dst.size)
+    fmap[dst] = r
     fmap[cf] = bit0
     fmap[of] = bit0
     fmap[sf] = bit0
@@ -1384,7 +1399,8 @@ def i_LZCNT(i, fmap):
     logger.verbose("%s semantic is not defined" % i.mnemonic)
     dst, src = i.operands
     x = fmap(src)
-    fmap[dst] = top(dst.size)
+    r = _bitcount(lambda v: x.size - v.bit_length(), x, dst.size)
+    fmap[dst] = r
     fmap[cf] = x == 0
     fmap[zf] = x.bit(-1)  # no leading zero
     fmap[eip] = fmap[eip] + i.length
@@ -1394,7 +1410,8 @@ def i_TZCNT(i, fmap):
     logger.verbose("%s semantic is not defined" % i.mnemonic)
     dst, src = i.operands
     x = fmap(src)
-    fmap[dst] = top(dst.size)
+    r = _bitcount(lambda v: (v & -v).bit_length() - 1 if v else x.size, x, dst.size)
+    fmap[dst] = r
     fmap[cf] = x == 0
     fmap[zf] = x.bit(0)  # no trailing zero
     fmap[eip] = fmap[eip] + i.length
